@@ -362,11 +362,104 @@ func c15F3(idx int, r *Result) {
 	c15Judge(mods, legal, want.String(), tags, r)
 }
 
+// ---------------------------------------------------------------- F4: exceptions across modules
+
+var c15F4Shapes = []string{"caught-in-main", "caught-in-library", "uncaught-from-library", "library-catches-own", "caught-in-main-then-call-library-again", "nested-library-chain"}
+
+func c15F4Count() int { return len(c15F4Shapes) * 2 }
+
+func c15F4(idx int, r *Result) {
+	shape := c15F4Shapes[idx/2]
+	overlap := idx%2 == 1
+	g := func(mod string) string { // name of the module's private global
+		if overlap {
+			return "tag"
+		}
+		return "tag_" + mod
+	}
+	lib := func(mod, body string) string {
+		return fmt.Sprintf("let %s = \"%s\";\n%sfn main() {}\n", g(mod), mod, body)
+	}
+	mods := map[string]string{}
+	var want string
+	legal := true
+	outcome := "ok"
+	switch shape {
+	case "caught-in-main":
+		mods["a"] = lib("a", fmt.Sprintf("pub fn fa() { println(\"a.f\", %s); throw(\"a-boom\"); }\n", g("a")))
+		mods["main"] = fmt.Sprintf("import { fa } from a;\nlet %s = \"main\";\nfn own() { println(\"main.own\", %s); }\nfn main() {\n    try { fa(); println(\"not here\"); } catch e { println(\"caught\", e.message); }\n    println(%s);\n    own();\n    println(\"end\");\n}\n", g("main"), g("main"), g("main"))
+		want = "a.f a\ncaught a-boom\nmain\nmain.own main\nend\n"
+	case "caught-in-main-then-call-library-again":
+		mods["a"] = lib("a", fmt.Sprintf("let n = 0;\npub fn fa() { n += 1; println(\"a.f\", %s, n); if n == 1 { throw(\"a-boom\"); } }\n", g("a")))
+		mods["main"] = fmt.Sprintf("import { fa } from a;\nlet %s = \"main\";\nfn main() {\n    try { fa(); } catch e { println(\"caught\", e.message); }\n    fa();\n    println(%s);\n    println(\"end\");\n}\n", g("main"), g("main"))
+		want = "a.f a 1\ncaught a-boom\na.f a 2\nmain\nend\n"
+	case "caught-in-library":
+		mods["b"] = lib("b", fmt.Sprintf("pub fn fail() { println(\"b.fail\", %s); throw(\"b-boom\"); }\n", g("b")))
+		mods["a"] = "import { fail } from b;\n" + lib("a", fmt.Sprintf("pub fn guarded() { try { fail(); } catch e { println(\"a caught\", e.message); } println(\"a after\", %s); }\n", g("a")))
+		mods["main"] = fmt.Sprintf("import { guarded } from a;\nlet %s = \"main\";\nfn main() {\n    guarded();\n    println(%s);\n    guarded();\n    println(\"end\");\n}\n", g("main"), g("main"))
+		want = "b.fail b\na caught b-boom\na after a\nmain\nb.fail b\na caught b-boom\na after a\nend\n"
+	case "uncaught-from-library":
+		mods["a"] = lib("a", fmt.Sprintf("pub fn fa() { println(\"a.f\", %s); throw(\"a-boom\"); }\n", g("a")))
+		mods["main"] = "import { fa } from a;\nfn main() {\n    println(\"start\");\n    fa();\n    println(\"not here\");\n}\n"
+		want = "start\na.f a\n"
+		outcome = "uncaught"
+	case "library-catches-own":
+		mods["a"] = lib("a", fmt.Sprintf("fn inner() { throw(\"in\"); }\npub fn fa() -> int { try { inner(); } catch e { println(\"a own\", e.message, %s); } 5 }\n", g("a")))
+		mods["main"] = fmt.Sprintf("import { fa } from a;\nlet %s = \"main\";\nfn main() {\n    println(fa());\n    println(%s);\n    println(\"end\");\n}\n", g("main"), g("main"))
+		want = "a own in a\n5\nmain\nend\n"
+	case "nested-library-chain":
+		mods["c"] = lib("c", fmt.Sprintf("pub fn fc() { println(\"c.f\", %s); throw(\"c-boom\"); }\n", g("c")))
+		mods["b"] = "import { fc } from c;\n" + lib("b", fmt.Sprintf("pub fn fb() { println(\"b.f\", %s); fc(); println(\"b not here\"); }\n", g("b")))
+		mods["a"] = "import { fb } from b;\n" + lib("a", fmt.Sprintf("pub fn fa() { try { fb(); } catch e { println(\"a caught\", e.message, %s); } }\n", g("a")))
+		mods["main"] = fmt.Sprintf("import { fa } from a;\nlet %s = \"main\";\nfn main() {\n    fa();\n    println(%s);\n    println(\"end\");\n}\n", g("main"), g("main"))
+		want = "b.f b\nc.f c\na caught c-boom a\nmain\nend\n"
+	}
+	tags := []string{"xmod:" + shape}
+	if overlap {
+		tags = append(tags, "overlapping-names")
+	}
+	if outcome == "uncaught" {
+		c15JudgeOutcome(mods, want, "uncaught", tags, r)
+		return
+	}
+	c15Judge(mods, legal, want, tags, r)
+}
+
+// c15JudgeOutcome is c15Judge for programs that end with an uncaught exception.
+func c15JudgeOutcome(mods map[string]string, want, class string, tags []string, r *Result) {
+	text := detText(detProg{Mods: mods})
+	r.Sample(text)
+	a := Analyze(mods, true)
+	if a.Obs.Class == "HOST-PANIC" || !a.Obs.Accepted() {
+		r.Fail("REJECTS-LEGAL-IMPORT:"+normMsg(strings.Join(append(append([]string{}, a.Obs.Syntax...), a.Obs.Errors...), "; ")), tags, text, a.Obs.String())
+		return
+	}
+	r.Distinct(strings.Join(tags, ","))
+	for _, be := range []string{"vm", "tree"} {
+		var o Obs
+		if be == "vm" {
+			o = RunVM(a, defaultOpts())
+		} else {
+			o = RunTree(a, defaultOpts())
+		}
+		r.Trans(1)
+		bt := append([]string{"backend:" + be}, tags...)
+		if cc := crashClass(o); cc != "" {
+			r.Fail(cc, bt, text, o.String())
+		} else if o.Class != class {
+			r.Fail("OUTCOME:"+class+"->"+o.Class+kindSuffix(o.Kind), bt, text, o.String())
+		} else if o.Out != want {
+			r.Fail("ISOLATION:output differs from the reference linker", bt, text, fmt.Sprintf("expected %q got %q", want, o.Out))
+		}
+	}
+}
+
 func init() {
 	register("C15", func() *Check {
 		return &Check{ID: "C15", Scenarios: []Scenario{
 			{Name: "visibility-single-library", Count: func(string) int { return c15F1Count() }, Run: func(_ string, idx int, r *Result) { c15F1(idx, r) }},
 			{Name: "same-names-in-several-modules", Count: func(string) int { return c15F2Count() }, Run: func(_ string, idx int, r *Result) { c15F2(idx, r) }},
+			{Name: "exceptions-across-modules", Count: func(string) int { return c15F4Count() }, Run: func(_ string, idx int, r *Result) { c15F4(idx, r) }},
 			{Name: "import-graphs", Count: func(string) int { return c15F3Count() }, Run: func(_ string, idx int, r *Result) { c15F3(idx, r) }},
 		}}
 	})
